@@ -561,6 +561,31 @@ def _declared_range(ctx, classes, stem):
     return None
 
 
+def _g12(ctx):
+    import os
+    n = 0
+    for fname in sorted(os.listdir(os.path.join(ctx.repo, D))):
+        if not fname.endswith(".py") or fname.startswith("__"):
+            continue
+        m = ctx.mod(D + fname)
+        for cname, cdef in m.classes.items():
+            for fn in cdef.body:
+                if not (isinstance(fn, ast.FunctionDef) and fn.name in ("create_clkout", "register_clkin")):
+                    continue
+                out_side = fn.name == "create_clkout"
+                for x in ast.walk(fn):
+                    if isinstance(x, ast.Attribute) and isinstance(x.ctx, ast.Load) and norm(x.value) == "self" and x.attr.endswith("freq_range"):
+                        is_in = bool(re.match(r"clk_?i(n)?_", x.attr))
+                        is_out = bool(re.match(r"clk_?o(ut)?_", x.attr))
+                        ok = not (is_in if out_side else is_out)
+                        n += 1
+                        ctx.ob("G12", D + fname, f"{cname}.{fn.name}", f"reads self.{x.attr}", ok,
+                               "" if ok else f"{fn.name} tests the {'requested output' if out_side else 'input'} frequency against self.{x.attr}, the "
+                                             f"{'input' if out_side else 'output'}-side range: requests legal for the device are refused (and illegal "
+                                             f"ones admitted)", x)
+    return n
+
+
 def run(ctx):
     ctx.rule("G1", "every loop variable that reaches the returned configuration iterates a declared *_range attribute "
                    "(range/reversed/clkdiv_range of self.<x>range, possibly through locals); frozen exceptions with reason",
@@ -608,6 +633,10 @@ def run(ctx):
                            "" if ok else f"`{norm(n)}` is a{'n upper' if upper else ' lower'} bound of the search (window element "
                                          f"{'[0] in the denominator / [1] in the numerator' if upper else '[1] in the denominator / [0] in the numerator'}) "
                                          f"but rounds {'up' if is_ceil else 'down'}: the first value outside the window is searched and can be returned", n)
+    ctx.rule("G12", "request admission reads the range of its own direction: an output request (create_clkout) is tested against an "
+                    "output-side *_freq_range attribute, an input registration (register_clkin) against an input-side one -- never the "
+                    "other's (a legal request would be refused, an illegal one admitted)", min_sites=6)
+    _g12(ctx)
     ctx.rule("G11", "Efinix PLL: the output dividers tried for an output are those legal for *that output's* phase (get_c_range(device, "
                     "its phase)), not the list computed for another output (the legal divider set shrinks with the phase shift)", min_sites=2)
     _g11(ctx)
